@@ -29,7 +29,8 @@ add(Contract(
     raises={'PacketError': ["exc.was_error_found_in_unpacking_phase == True", "StackWF(exc)",
                             "fresh_since(exc) and fresh_since(exc.fields_stack)"],
             'OtherException*': []},
-    modifies=['slot(pkt, *)'], allocates=True, returns='int'))
+    # a field writes only the slots it owns in its packet (its value slot and scratch slots)
+    modifies=['slot(pkt, in:owns(f, n))'], allocates=True, returns='int'))
 
 add(Contract(
     'role:FIELD.pack', role=True,
@@ -40,7 +41,7 @@ add(Contract(
                             "fresh_since(exc) and fresh_since(exc.fields_stack)",
                             "WF(fragments)", "fragments.current_offset >= 0"],
             'OtherException*': ["WF(fragments)", "fragments.current_offset >= 0"]},
-    modifies=['slot(pkt, *)'] + FRAG_MOD, allocates=True, returns='dyn'))
+    modifies=['slot(pkt, in:owns(f, n))'] + FRAG_MOD, allocates=True, returns='dyn'))
 
 # descriptor sync hooks (Auto.sync_before_pack): may fail with any exception
 add(Contract(
